@@ -8,10 +8,13 @@
 //!  (D) whole indexes: settings x segments x deletes x merges, Searcher::doc and store iteration.
 use std::collections::{BTreeMap, HashSet};
 use std::net::Ipv6Addr;
+use std::io::Write;
 use std::path::Path;
+use std::sync::atomic::{AtomicBool, AtomicUsize, Ordering};
+use std::sync::{Arc, Mutex};
 
 use serde_json::json;
-use tantivy::directory::{Directory, RamDirectory};
+use tantivy::directory::{AntiCallToken, Directory, FileSlice, RamDirectory, TerminatingWrite, WritePtr};
 use tantivy::fastfield::{write_alive_bitset, AliveBitSet};
 use tantivy::indexer::NoMergePolicy;
 use tantivy::schema::{Facet, Field, OwnedValue, Schema, TantivyDocument, FAST, INDEXED, STORED, STRING, TEXT};
@@ -22,9 +25,10 @@ use tantivy_common::{BitSet, OwnedBytes};
 use tvh::coqfmt as cf;
 use tvh::out::CaseOut;
 use tvh::rng::Rng;
+use tvh::vdir::{OpKind, VerifDirectory};
 use tvh::{guarded, Args};
 
-const HEADER: &str = "From TV Require Import Base.Prelude Generated.Constants Store.VInt Store.SkipIndex Store.BlockStore Store.DocCodec.";
+const HEADER: &str = "From TV Require Import Base.Prelude Generated.Constants Store.VInt Store.SkipIndex Store.BlockStore Store.DocCodec Store.WriterFaults.";
 
 // ------------------------------------------------------------------ values and documents
 #[derive(Clone, Debug)]
@@ -229,6 +233,59 @@ fn gen_raw_docs(rng: &mut Rng, n: usize, block_size: usize, max_len: usize) -> V
         }.min(max_len.max(block_size.min(300_000) + 32)).max(1);   // a serialised document is never empty (>= 1 byte: its VInt field count)
         rng.bytes(len)
     }).collect()
+}
+
+// ------------------------------------------------------------------ a `Write` whose operations can fail
+/// Every write / flush / terminate of the underlying writer is one numbered operation; operation `fail_at`
+/// (and, when `sticky`, every later one: disk full) returns an io::Error.  `short` makes writes accept
+/// only a prefix (legal behaviour of `Write::write`).
+#[derive(Clone)]
+struct FaultSink {
+    data: Arc<Mutex<Vec<u8>>>,
+    ops: Arc<AtomicUsize>,
+    fired: Arc<AtomicBool>,
+    fail_at: Option<usize>,
+    sticky: bool,
+    short: bool,
+}
+impl FaultSink {
+    fn new(fail_at: Option<usize>, sticky: bool, short: bool) -> FaultSink {
+        FaultSink { data: Default::default(), ops: Default::default(), fired: Default::default(), fail_at, sticky, short }
+    }
+    fn op(&self) -> std::io::Result<usize> {
+        let i = self.ops.fetch_add(1, Ordering::SeqCst);
+        if let Some(k) = self.fail_at {
+            if i == k || (self.sticky && i > k) {
+                self.fired.store(true, Ordering::SeqCst);
+                return Err(std::io::Error::new(std::io::ErrorKind::StorageFull, "injected fault: no space left on device"));
+            }
+        }
+        Ok(i)
+    }
+    fn write_ptr(&self, cap: usize) -> WritePtr {
+        std::io::BufWriter::with_capacity(cap, Box::new(self.clone()))
+    }
+}
+impl Write for FaultSink {
+    fn write(&mut self, buf: &[u8]) -> std::io::Result<usize> {
+        let i = self.op()?;
+        let n = if self.short && buf.len() > 1 { 1 + (i * 7 + 3) % buf.len() } else { buf.len() };
+        self.data.lock().unwrap().extend_from_slice(&buf[..n]);
+        Ok(n)
+    }
+    fn flush(&mut self) -> std::io::Result<()> { self.op().map(|_| ()) }
+}
+impl TerminatingWrite for FaultSink {
+    fn terminate_ref(&mut self, _: AntiCallToken) -> std::io::Result<()> { self.op().map(|_| ()) }
+}
+
+/// store_bytes every document then close, stopping at the first Err (what every caller does with `?`)
+fn write_store_on(sink: &FaultSink, cap: usize, comp: u8, block_size: usize, thread: bool, docs: &[Vec<u8>]) -> Result<std::io::Result<()>, String> {
+    guarded(|| -> std::io::Result<()> {
+        let mut sw = StoreWriter::new(sink.write_ptr(cap), compressor(comp), block_size, thread)?;
+        for d in docs { sw.store_bytes(d)?; }
+        sw.close()
+    })
 }
 
 fn main() {
@@ -745,6 +802,135 @@ fn main() {
         }}}}}
     }
 
+    // ================================================================ (F) I/O errors of the underlying writer are reported
+    // StoreWriter over a failing `Write`: for every operation index of the stream (block writes, skip index,
+    // footer, flush, terminate) a fault is injected; with and without the dedicated compression thread
+    // close()/store_bytes must report Err; Ok is only allowed when nothing failed, and then the bytes
+    // decode to exactly the documents.
+    {
+        let n_cfg = if thorough { 120 } else { 30 };
+        let mut coq_f_budget: i64 = if thorough { 600 } else { 150 };
+        for ci in 0..n_cfg {
+            let comp = (ci % 3) as u8;
+            let block_size = *rng.pick(&[0usize, 30, 200, 16_384]);
+            let thread = ci % 2 == 0;
+            let cap = *rng.pick(&[0usize, 16, 512, 8192]);
+            let n = *rng.pick(&[0usize, 1, 2, 5, 12, 30]);
+            let docs = gen_raw_docs(&mut rng, n, block_size.min(64), 40);
+            let desc = json!({"what": "failing-writer", "compressor": comp_name(comp), "block_size": block_size, "thread": thread, "bufwriter_capacity": cap, "docs": n,
+                              "docs_hex": docs.iter().take(40).map(|d| cf::hex(&d[..d.len().min(48)])).collect::<Vec<_>>()});
+            // fault-free run (also with short writes): Ok and the bytes decode to the documents
+            let mut nops = 0usize;
+            for short in [false, true] {
+                let sink = FaultSink::new(None, false, short);
+                let r = write_store_on(&sink, cap, comp, block_size, thread, &docs);
+                let bytes = sink.data.lock().unwrap().clone();
+                if !short { nops = sink.ops.load(Ordering::SeqCst); }
+                let decoded_ok = matches!(r, Ok(Ok(()))) && matches!(guarded(|| -> tantivy::Result<bool> {
+                    let rd = StoreReader::open(FileSlice::new(Arc::new(OwnedBytes::new(bytes.clone()))), 1)?;
+                    for (i, d) in docs.iter().enumerate() { if rd.get_document_bytes(i as u32)?.as_slice() != &d[..] { return Ok(false); } }
+                    Ok(true)
+                }), Ok(Ok(true)));
+                out.spec_checked(decoded_ok, json!({"what": "fault-free store write (short writes allowed) is not Ok + exact", "short_writes": short, "case": desc, "result": format!("{:?}", r)}));
+            }
+            out.count("failing_writer_configs", 1);
+            // fault positions: every operation when there are few, otherwise the head, the tail and a sample
+            let mut ks: Vec<usize> = if nops <= 36 { (0..nops).collect() } else {
+                let mut v: Vec<usize> = (0..6).collect(); v.extend(nops - 14..nops); for _ in 0..16 { v.push(rng.below(nops as u64) as usize); } v.sort(); v.dedup(); v };
+            ks.push(nops); ks.push(nops + 3);   // beyond the stream: no fault can fire
+            for k in ks {
+                for sticky in [true, false] {
+                    let sink = FaultSink::new(Some(k), sticky, false);
+                    let r = write_store_on(&sink, cap, comp, block_size, thread, &docs);
+                    let fired = sink.fired.load(Ordering::SeqCst);
+                    let fdesc = json!({"what": "fault", "case": desc, "fail_op": k, "ops_in_stream": nops, "sticky": sticky, "fired": fired, "result": format!("{:?}", r), "bytes_written": sink.data.lock().unwrap().len()});
+                    let outcome = match &r { Ok(Ok(())) => "WOk", Ok(Err(_)) => "WErr", Err(_) => "panic" };
+                    // spec: an error of the underlying writer is never swallowed; no panic
+                    out.spec_checked(outcome != "panic" && (!fired || outcome == "WErr"), json!({"what": "I/O error of the underlying writer swallowed (writer reported success) or panic", "case": fdesc}));
+                    if !fired {
+                        let bytes = sink.data.lock().unwrap().clone();
+                        let exact = outcome == "WOk" && matches!(guarded(|| -> tantivy::Result<bool> {
+                            let rd = StoreReader::open(FileSlice::new(Arc::new(OwnedBytes::new(bytes))), 0)?;
+                            for (i, d) in docs.iter().enumerate() { if rd.get_document_bytes(i as u32)?.as_slice() != &d[..] { return Ok(false); } }
+                            Ok(true)
+                        }), Ok(Ok(true)));
+                        out.spec_checked(exact, json!({"what": "no fault fired but the store is not Ok + exact", "case": fdesc}));
+                    }
+                    out.count("fault_runs", 1);
+                    if fired { out.count(if k + 4 >= nops { "faults_in_tail" } else { "faults_before_tail" }, 1); }
+                    if coq_f_budget > 0 && outcome != "panic" && (k + 6 >= nops || k < 2 || rng.chance(1, 6)) {
+                        coq_f_budget -= 1;
+                        // tie: the propagation model (thread result harvested at close) on the same fault
+                        out.coq_case("tie", format!("wres_eqb (writer_outcome {} {} {} {}) {}", cf::boolean(thread), cf::boolean(sticky), cf::nat(k), cf::nat(nops), outcome), fdesc.clone(), k < nops);
+                    }
+                }
+            }
+        }
+    }
+
+    // ================================================================ (G) commit() never reports success for a doc store that failed
+    // whole index on a fault-injecting directory: one write / flush / terminate of a `.store` file fails;
+    // commit Ok => every added document is fetched exactly; commit Err => the earlier commit is intact
+    {
+        let reps = if thorough { 6 } else { 1 };
+        let mut coq_g_budget: i64 = 0;
+        for _rep in 0..reps { for kind in [OpKind::Write, OpKind::Flush, OpKind::Terminate] { for thread in [true, false] { for comp in [0u8, 1] {
+            let mut sb = Schema::builder();
+            let id_f = sb.add_u64_field("id", INDEXED | STORED | FAST);
+            let body = sb.add_text_field("body", TEXT | STORED);
+            let schema = sb.build();
+            let stored_ids: Vec<u32> = vec![id_f.field_id(), body.field_id()];
+            let stored: HashSet<u32> = stored_ids.iter().cloned().collect();
+            let mut settings = IndexSettings::default();
+            settings.docstore_compression = compressor(comp);
+            settings.docstore_compress_dedicated_thread = thread;
+            settings.docstore_blocksize = *rng.pick(&[0usize, 100, 16_384]);
+            let desc = json!({"what": "index on a failing directory", "fault": kind.name(), "thread": thread, "compressor": comp_name(comp), "block_size": settings.docstore_blocksize});
+            let vd = VerifDirectory::new();
+            let run = guarded(|| -> tantivy::Result<()> {
+                let index = Index::create(vd.clone(), schema.clone(), settings.clone())?;
+                let mut added: BTreeMap<u64, Vec<(u32, Added)>> = BTreeMap::new();
+                let none: HashSet<u64> = HashSet::new();
+                let mut w: IndexWriter = index.writer_with_num_threads(1, 20_000_000)?;
+                w.set_merge_policy(Box::new(NoMergePolicy));
+                let mut next = 0u64;
+                for _ in 0..rng.range(1, 6) {
+                    let d = vec![(id_f.field_id(), Added::Val(OwnedValue::U64(next))), (body.field_id(), Added::Val(OwnedValue::Str(format!("early {} {}", next, gen_string(&mut rng, 20)))))];
+                    w.add_document(build_doc(&d))?; added.insert(next, d); next += 1;
+                }
+                w.commit()?;
+                let baseline = added.clone();
+                vd.set_fault_once(kind.clone(), ".store");
+                for _ in 0..rng.range(1, 12) {
+                    let d = vec![(id_f.field_id(), Added::Val(OwnedValue::U64(next))), (body.field_id(), Added::Val(OwnedValue::Str(format!("late {} {}", next, gen_string(&mut rng, 30)))))];
+                    w.add_document(build_doc(&d))?; added.insert(next, d); next += 1;
+                }
+                let fired_before = vd.faults_fired();
+                let c = w.commit();
+                let fired = vd.faults_fired() > fired_before || vd.faults_fired() > 0;
+                out.count(if c.is_ok() { "faulty_commit_ok" } else { "faulty_commit_err" }, 1);
+                if fired { out.count("index_store_faults_fired", 1); }
+                match c {
+                    Ok(_) => {
+                        // success was reported: every document must be there, exactly
+                        let d2 = json!({"case": desc, "fault_fired": fired, "commit": "Ok"});
+                        check_index(&index, &added, &none, &stored, &stored_ids, id_f, &mut rng, &mut out, &mut coq_g_budget, &d2, "after-faulty-commit-ok");
+                    }
+                    Err(e) => {
+                        let d2 = json!({"case": desc, "fault_fired": fired, "commit": format!("Err({e:?})").chars().take(200).collect::<String>()});
+                        out.spec_checked(fired, json!({"what": "commit failed although no fault was injected", "case": d2}));
+                        drop(w);
+                        let index2 = Index::open(vd.clone())?;
+                        check_index(&index2, &baseline, &none, &stored, &stored_ids, id_f, &mut rng, &mut out, &mut coq_g_budget, &d2, "after-faulty-commit-err");
+                    }
+                }
+                Ok(())
+            });
+            out.spec_checked(matches!(run, Ok(Ok(()))), json!({"what": "failing-directory scenario failed (reader cannot be opened / panic)", "case": desc, "result": format!("{:?}", run).chars().take(600).collect::<String>()}));
+            out.count("failing_directory_cases", 1);
+        }}}}
+    }
+
     out.finish(json!({"tier": args.tier, "seed": args.seed}));
 }
 
@@ -752,7 +938,7 @@ fn main() {
 fn check_index(index: &Index, added: &BTreeMap<u64, Vec<(u32, Added)>>, deleted: &HashSet<u64>, stored: &HashSet<u32>, stored_ids: &[u32], id_f: Field,
                rng: &mut Rng, out: &mut CaseOut, budget: &mut i64, desc: &serde_json::Value, phase: &str) {
     let cache = *rng.pick(&[0usize, 1, 10]);
-    let reader = match index.reader_builder().reload_policy(ReloadPolicy::Manual).doc_store_cache_num_blocks(cache).try_into() { Ok(r) => r, Err(e) => { out.spec_checked(false, json!({"what": "reader", "err": format!("{e:?}")})); return; } };
+    let reader = match index.reader_builder().reload_policy(ReloadPolicy::Manual).doc_store_cache_num_blocks(cache).try_into() { Ok(r) => r, Err(e) => { out.spec_checked(false, json!({"what": "a reader cannot be opened on the committed index (a published segment is unreadable)", "case": desc, "phase": phase, "err": format!("{e:?}").chars().take(400).collect::<String>()})); return; } };
     let searcher = reader.searcher();
     let mut seen: HashSet<u64> = HashSet::new();
     for (ord, seg) in searcher.segment_readers().iter().enumerate() {
